@@ -15,7 +15,7 @@ for s in "${seeds[@]}"; do
 	git -C /repo checkout -- .
 	v=$(grep -c '^VIOLATION' .work/seed-$s.log)
 	first=$(grep -A1 '^VIOLATION' .work/seed-$s.log | sed -n 2p | tr -d '\r\t' | cut -c1-160)
-	echo -e "$s\t$prop\t$tier\trc=$rc\tviolations=$v\t$((end-start))s\t$first" | tee -a seeded/RESULTS.tsv
+	printf "%s\t%s\t%s\trc=%s\tviolations=%s\t%ss\t%s\n" "$s" "$prop" "$tier" "$rc" "$v" "$((end-start))" "$first" | tee -a seeded/RESULTS.tsv
 done
 # leave the harness built against the clean tree again
 ./check setup >/dev/null 2>&1
